@@ -21,6 +21,8 @@ let () =
           match (try u c with e -> Diff ("exception " ^ Printexc.to_string e)) with
           | Ok_ -> Printf.printf "R %s %s OK\n" c.id n
           | Diff d -> Printf.printf "R %s %s DIFF %s\n" c.id n d
+          | Viol (k, d) -> Printf.printf "V %s %s %s %s\n" c.id n k d
           | Skip -> ()) us);
     close_in ic
+  | _ :: cmd :: file :: _ when List.mem_assoc cmd !commands -> (List.assoc cmd !commands) file
   | _ -> prerr_endline "usage: driver check <trace> [units]"; exit 2
